@@ -395,8 +395,34 @@ NNames == Len(NameTable) * Len(NamePositions)
 NameCase(i) == [pos |-> NamePositions[((i - 1) % Len(NamePositions)) + 1], nm |-> NameTable[((i - 1) \div Len(NamePositions)) + 1]]
 
 -----------------------------------------------------------------------------
+(* Use of imported definitions: a file that imports another and uses each    *)
+(* kind of imported definition under each type wrapper in each kind of      *)
+(* record, generated in both import modes.  The go_package literals are     *)
+(* placeholders the harness fills in with the import paths of its workspace. *)
+ImpKinds == << "struct", "message", "enum", "union" >>
+ImpDep == << Co("string", "go_package", "\"@DEPPKG@\""),
+             St("TB", << F("v", P("int64")), F("w", P("string")) >>),
+             Ms("MB", << FI(1, "t", R("TB")), FI(2, "n", P("int32")) >>),
+             En("EB", "uint16", << Mem("X", "1", <<1,0>>), Mem("Y", "2", <<2,0>>) >>),
+             Un("UB", << Br(1, St("UBA", << F("a", P("int32")) >>)), Br(2, Ms("UBM", << FI(1, "s", P("string")) >>)) >>) >>
+ImpTypeName(k) == CASE k = "struct" -> "TB" [] k = "message" -> "MB" [] k = "enum" -> "EB" [] k = "union" -> "UB"
+ImpWrap(w, t) == CASE w = 1 -> t [] w = 2 -> A(t) [] w = 3 -> M("string", t) [] w = 4 -> A(A(t)) [] w = 5 -> M("int32", A(t))
+ImpHolders == << "struct", "message", "branch" >>
+ImpRoot(k, w, h) ==
+  LET t == ImpWrap(w, R(ImpTypeName(k))) IN
+  << [k |-> "import", path |-> "./dep.bop"], Co("string", "go_package", "\"@ROOTPKG@\"") >> \o
+  (CASE h = "struct" -> << St("Holder", << F("pre", P("bool")), F("x", t), F("post", P("byte")) >>) >>
+     [] h = "message" -> << Ms("Holder", << FI(1, "pre", P("bool")), FI(2, "x", t), FI(3, "post", P("byte")) >>) >>
+     [] h = "branch" -> << Un("Holder", << Br(1, St("HA", << F("x", t) >>)), Br(2, Ms("HB", << FI(1, "x", t) >>)) >>) >>)
+NImpUse == Len(ImpKinds) * 5 * Len(ImpHolders)
+ImpCase(i) == [k |-> ImpKinds[((i - 1) % 4) + 1], w |-> (((i - 1) \div 4) % 5) + 1, h |-> ImpHolders[((i - 1) \div 20) + 1]]
+ImpItems(i) == ImpRoot(ImpCase(i).k, ImpCase(i).w, ImpCase(i).h)
+\* the schema the two files denote together (imports resolved) is well-formed
+ImpInlined(i) == SelectSeq(ImpDep, LAMBDA d : d.k # "const") \o SelectSeq(ImpItems(i), LAMBDA d : d.k \notin {"import", "const"})
+
+-----------------------------------------------------------------------------
 Init == part = "" /\ ci = 0
-Count(p) == CASE p = "base" -> 2 [] p = "inject" -> Len(Injections) [] p = "sites" -> Len(SiteInjections) [] p = "graph" -> GraphCount [] p = "names" -> NNames
+Count(p) == CASE p = "base" -> 2 [] p = "inject" -> Len(Injections) [] p = "sites" -> Len(SiteInjections) [] p = "graph" -> GraphCount [] p = "names" -> NNames [] p = "impuse" -> NImpUse
 Next == \/ part = "" /\ part' \in Parts /\ UNCHANGED ci
         \/ part # "" /\ ci = 0 /\ ci' \in 1..Count(part) /\ UNCHANGED part
 IsCase == ci > 0
@@ -406,13 +432,16 @@ Items == CASE part = "base" -> (IF ci = 1 THEN Base ELSE Base2)
            [] part = "inject" -> Injections[ci].items
            [] part = "sites" -> SiteInjections[ci].items
            [] part = "names" -> NameItems(NameCase(ci).pos, NameCase(ci).nm.n)
+           [] part = "impuse" -> ImpItems(ci)
            [] part = "graph" -> GraphItems(GC.n, GC.g, GC.kind)
-Class == CASE part = "base" -> "" [] part = "inject" -> Injections[ci].class [] part = "sites" -> SiteInjections[ci].class [] part = "names" -> "" [] part = "graph" -> "struct necessarily contains itself"
+Class == CASE part = "base" -> "" [] part = "inject" -> Injections[ci].class [] part = "sites" -> SiteInjections[ci].class [] part = "names" -> "" [] part = "impuse" -> "" [] part = "graph" -> "struct necessarily contains itself"
 Site  == CASE part = "base" -> "" [] part = "inject" -> Injections[ci].site [] part = "sites" -> SiteInjections[ci].site
            [] part = "names" -> NameCase(ci).nm.n \o " as " \o NameCase(ci).pos
+           [] part = "impuse" -> "imported " \o ImpCase(ci).k \o " under wrapper " \o ToString(ImpCase(ci).w) \o " in a " \o ImpCase(ci).h
            [] part = "graph" -> ToString(GC.n) \o " structs, graph " \o ToString(GC.g) \o ", edges " \o GC.kind
 \* the specification's verdict; edges through arrays/maps are left open by the property's wording
-Expect == IF part = "graph" /\ GC.kind \in {"array", "map"} THEN "unspec"
+Expect == IF part = "impuse" THEN (IF Violated(ImpInlined(ci)) = "" THEN "accept" ELSE "reject")
+          ELSE IF part = "graph" /\ GC.kind \in {"array", "map"} THEN "unspec"
           ELSE IF Violated(Items) = "" THEN "accept" ELSE "reject"
 
 \* the base is well-formed; each injection violates exactly the rule it is filed under
@@ -421,10 +450,14 @@ InjectionsIllFormed == (IsCase /\ part \in {"inject", "sites"}) => Violated(Item
 Where == IF part = "sites" THEN SiteInjections[ci].where ELSE ""
 \* every naming of the small schemas is a valid schema
 NamesWellFormed == (IsCase /\ part = "names") => Violated(Items) = ""
+ImportUseWellFormed == (IsCase /\ part = "impuse") => Violated(ImpInlined(ci)) = ""
 NameOf == IF part = "names" THEN NameCase(ci).nm @@ [pos |-> NameCase(ci).pos] ELSE [pos |-> ""]
 \* graphs: direct edges are rejected iff the graph has a cycle; message/union edges never
 GraphVerdicts == (IsCase /\ part = "graph" /\ GC.kind \in {"message", "union"}) => Violated(Items) = ""
 
 Export == IsCase => PrintT("@@PCASE " \o ToJson([part |-> part, ci |-> ci, tokens |-> Tokens(Items), file |-> [x |-> 0],
-                                                  extra |-> [class |-> Class, site |-> Site, where |-> Where, expect |-> Expect, name |-> NameOf]]))
+                                                  extra |-> [class |-> Class, site |-> Site, where |-> Where, expect |-> Expect, name |-> NameOf,
+                                                             dep |-> IF part = "impuse" THEN Tokens(ImpDep) ELSE <<>>,
+                                                             \* combined mode inlines the imported file: it must not define go_package a second time
+                                                             depc |-> IF part = "impuse" THEN Tokens(Tail(ImpDep)) ELSE <<>>]]))
 =============================================================================
